@@ -57,14 +57,24 @@ fn explore_shape(ends: &[f64], with_nan: bool) -> ShapeResult {
     if with_nan {
         alpha.extend(nans());
     }
-    let direct: Vec<f64> = alpha.iter().map(|&x| pw.evaluate(x)).collect();
-    let fresh: Vec<f64> = alpha.iter().map(|&x| PiecewiseEvaluator::new(&pw.segments).evaluate(x)).collect();
+    let mut r = ShapeResult { states: 0, transitions: 0, nontrivial: 0, max_hist: 0, violation: None, keys: vec![], sample: None };
+    let pre = guard(|| {
+        let direct: Vec<f64> = alpha.iter().map(|&x| pw.evaluate(x)).collect();
+        let fresh: Vec<f64> = alpha.iter().map(|&x| PiecewiseEvaluator::new(&pw.segments).evaluate(x)).collect();
+        (direct, fresh)
+    });
+    let (direct, fresh) = match pre {
+        Ok(t) => t,
+        Err(p) => {
+            r.violation = Some(json!({"what": format!("evaluation of a non-empty function panicked: {p}"), "engine": "B (reachable-state fixpoint)", "ends": fjs(ends), "history": fjs(&alpha), "with_nan": with_nan}));
+            return r;
+        }
+    };
     let mut seen: HashMap<Key, Vec<u16>> = HashMap::new();
     let mut queue: VecDeque<Key> = VecDeque::new();
     let k0 = PiecewiseEvaluator::new(&pw.segments).verif_state();
     seen.insert(k0, vec![]);
     queue.push_back(k0);
-    let mut r = ShapeResult { states: 0, transitions: 0, nontrivial: 0, max_hist: 0, violation: None, keys: vec![], sample: None };
     while let Some(k) = queue.pop_front() {
         let hist = seen[&k].clone();
         r.max_hist = r.max_hist.max(hist.len());
@@ -257,18 +267,24 @@ fn main() {
             machinery("replay file has no ends/history");
         }
         let pw = probe_pw(&ends);
+        // true = the history violates (wrong answer to a non-NaN query, or a panic anywhere)
         let run = || {
             let mut ev = PiecewiseEvaluator::new(&pw.segments);
-            hist.iter().map(|&x| ev.evaluate(x).to_bits()).collect::<Vec<u64>>()
+            let mut bad = false;
+            for &x in &hist {
+                let y = ev.evaluate(x);
+                let d = pw.evaluate(x);
+                if !x.is_nan() && y.to_bits() != d.to_bits() {
+                    bad = true;
+                }
+            }
+            bad
         };
         let (a, b) = (guard(run), guard(run));
         if a != b {
             machinery("replay: two runs differ");
         }
-        let bad = match a {
-            Err(_) => true,
-            Ok(ans) => hist.iter().zip(ans.iter()).any(|(&x, &y)| !x.is_nan() && y != pw.evaluate(x).to_bits()),
-        };
+        let bad = a.unwrap_or(true);
         if bad {
             println!("replay: history {:?} on ends {:?} still violates", hist, ends);
             println!("VIOLATION property={} replay={}", args[1], args[3]);
